@@ -3,7 +3,8 @@
 S1x = S1 of vlib.treegen (the shared tree base, not edited) plus, in this module only:
   * `unique` statements on lists (leaves of the list itself, of a child container, of a case),
   * mandatory leaves / min-elements inside non-default cases, choices nested directly in cases,
-  * mandatory nodes at the top level.
+  * mandatory nodes at the top level,
+  * the directed families `FAMILIES` (fam_*): hand-shaped templates, one per construct of the full schema language (C02).
 The base DSL (`Schema.dsl()`) is unchanged, so `LyModel.Tree.Schema.parse` reads it; what is new travels in a second token,
 the *extension DSL* (`XSchema.xdsl()`), one line per statement:
 
@@ -306,6 +307,516 @@ def gen_schema_nested(rng, idx, prefix="vn"):
         if n.kind == "list" and not hasattr(n, "uniques"):
             n.uniques = []
     return s
+
+
+# ----------------------------------------------------------------------------------------------------------------
+# directed families: one small hand-shaped template per construct of the full schema language, with random names / types /
+# bounds / positions (C02: theorems validate_ok_iff_valid / validate_error_tag over choice/case, defaults, non-presence
+# containers, unique).  What libyang's compiler rejects is avoided by construction: no node with LYS_MAND_TRUE (mandatory leaf /
+# choice, min-elements >= 1, non-presence container with such a descendant) directly in a default case, no default on a
+# mandatory leaf or on a leaf-list with min-elements >= 1, no default case in a mandatory choice.
+# ----------------------------------------------------------------------------------------------------------------
+
+class _Fam:
+    """schema node builders of the directed families"""
+
+    def __init__(self, rng):
+        self.rng, self.nm = rng, tg._Names()
+
+    def ty(self, key=False, allow_empty=True, room=0):
+        """a random type whose value pool has more than `room` values"""
+        while True:
+            t = tg.rand_type(self.rng, key=key, allow_empty=allow_empty)
+            if len(t.pool(key)) > room:
+                return t
+
+    def leaf(self, mand=False, dflt=False, noempty=False, room=0):
+        ty = self.ty(allow_empty=not (dflt or noempty), room=room)
+        n = SNode("leaf", self.nm.new("f"), ty=ty)
+        if mand:
+            n.mandatory = True
+        elif dflt:
+            n.dflt = self.rng.choice(ty.pool())
+        return n
+
+    def ll(self, lo=0, hi=0, ndflt=0):
+        ty = self.ty(allow_empty=False, room=max(lo, hi) + 1)
+        n = SNode("leaflist", self.nm.new("ll"), ty=ty)
+        n.userord = self.rng.random() < 0.3
+        n.min, n.max = lo, hi
+        if ndflt and not lo:
+            pool = [v for v in ty.pool() if v != b"" or not n.userord]       # F52: "" is no yang:value anchor
+            n.dflts = self.rng.sample(pool, min(ndflt, len(pool), hi or 99))
+        return n
+
+    def np(self, kids):
+        return SNode("container", self.nm.new("c"), presence=False, kids=kids)
+
+    def pc(self, kids):
+        return SNode("container", self.nm.new("c"), presence=True, kids=kids)
+
+    def lst(self, kids, lo=0, hi=0, uniques=None):
+        k = SNode("leaf", self.nm.new("k"), ty=self.ty(key=True, room=7), iskey=True)
+        n = SNode("list", self.nm.new("l"), keys=[k.name], kids=[k] + kids)
+        n.userord = self.rng.random() < 0.3
+        n.min, n.max = lo, hi
+        n.uniques = uniques or []
+        return n
+
+    def case(self, kids):
+        return SNode("case", self.nm.new("ca"), kids=kids)
+
+    def choice(self, cases, dflt=None, mand=False):
+        """dflt: the default case (a node of `cases`) or None"""
+        n = SNode("choice", self.nm.new("ch"), kids=cases)
+        if dflt is not None:
+            n.dflt = dflt.name
+        n.mandatory = bool(mand) and dflt is None
+        return n
+
+    def mixed(self, nodes):
+        nodes = list(nodes)
+        self.rng.shuffle(nodes)
+        return nodes
+
+    def holders(self, make, top_ok=True):
+        """the template `make()` at the top level, in a presence container, in a non-presence container and in a list entry:
+        a random non-empty subset of the four places"""
+        r = self.rng
+        top = []
+        if top_ok and r.random() < 0.4:
+            top.append(make())
+        if r.random() < 0.5:
+            top.append(self.pc(self.mixed([self.leaf(), make()])))
+        if r.random() < 0.4:
+            top.append(self.np(self.mixed([self.leaf(dflt=r.random() < 0.5), make()])))
+        if r.random() < 0.6 or not top:
+            top.append(self.lst(self.mixed([make(), self.leaf()])))
+        return top
+
+    def finish(self, family, idx, top):
+        s = XSchema("v%s%d" % (FAMILY_PREFIX[family], idx), top)
+        for n in s.nodes:
+            if n.kind == "list" and not hasattr(n, "uniques"):
+                n.uniques = []
+        s.family = family
+        return s
+
+
+def fam_np_nested_default(rng, idx):
+    """list entry > NON-presence container > choice > case > NESTED choice with a default case (leaf default, sometimes a leaf-list
+    default); the non-default case of the nested choice has a mandatory leaf"""
+    b = _Fam(rng)
+
+    def body():
+        cd = b.case([b.leaf(dflt=True)] + ([b.ll(ndflt=rng.randrange(1, 3))] if rng.random() < 0.4 else []))
+        cm = b.case(b.mixed([b.leaf(mand=True), b.leaf()]))
+        inner = b.choice(b.mixed([cd, cm]), dflt=cd)
+        ca = b.case(b.mixed([b.leaf(), inner]))
+        cb = b.case([b.leaf(dflt=rng.random() < 0.5)])
+        outer = b.choice(b.mixed([ca, cb]), dflt=rng.choice([None, ca, cb]))
+        return b.np(b.mixed([outer] + ([b.leaf(dflt=True)] if rng.random() < 0.5 else [])))
+    top = [b.lst(b.mixed([body(), b.leaf()]))]
+    if rng.random() < 0.4:
+        top.append(b.pc(b.mixed([b.leaf(), body()])))
+    if rng.random() < 0.3:
+        top.insert(0, body())
+    return b.finish("np-nested-default", idx, top)
+
+
+def fam_mand_choice_in_case(rng, idx):
+    """a MANDATORY choice nested in a case of an outer choice (sometimes one level deeper), the outer case selected by a sibling
+    leaf (often itself mandatory, so that dropping the choice's data leaves the case selected) or not selected at all"""
+    b = _Fam(rng)
+
+    def outer():
+        m = b.choice([b.case([b.leaf()]), b.case([b.leaf()] + ([b.ll()] if rng.random() < 0.3 else []))], mand=True)
+        if rng.random() < 0.3:
+            m = b.choice(b.mixed([b.case(b.mixed([b.leaf(mand=rng.random() < 0.5), m])), b.case([b.leaf()])]))
+        ca = b.case(b.mixed([b.leaf(mand=rng.random() < 0.6), m]))
+        cb = b.case([b.leaf()])
+        cases = [ca, cb] + ([b.case([b.leaf(dflt=True)])] if rng.random() < 0.3 else [])
+        r = rng.random()
+        return b.choice(b.mixed(cases), dflt=cb if r < 0.3 else None, mand=0.3 <= r < 0.5)
+    return b.finish("mand-choice-in-case", idx, b.holders(outer))
+
+
+def fam_default_case_nested(rng, idx):
+    """a default case that holds a nested choice whose own default case has a leaf default and leaf-list defaults (sometimes a
+    third level): validation creates the implicit nodes level by level; other cases switch single levels off"""
+    b = _Fam(rng)
+
+    def inner(depth):
+        dk = [b.leaf(dflt=True), b.ll(ndflt=rng.randrange(1, 4))]
+        if depth < 2 and rng.random() < 0.35:
+            dk.append(inner(depth + 1))
+        cd = b.case(b.mixed(dk))
+        cx = b.case([b.leaf()] + ([b.leaf(mand=True)] if rng.random() < 0.3 else []))
+        cases = [cd, cx] + ([b.case([b.leaf(dflt=True)])] if rng.random() < 0.3 else [])
+        return b.choice(b.mixed(cases), dflt=cd)
+
+    def outer():
+        cd = b.case(b.mixed([b.leaf(dflt=rng.random() < 0.7), inner(1)]))
+        cy = b.case([b.leaf()] + ([b.ll(ndflt=1)] if rng.random() < 0.3 else []))
+        return b.choice(b.mixed([cd, cy]), dflt=cd)
+    return b.finish("default-case-nested", idx, b.holders(outer))
+
+
+def fam_np_chain(rng, idx):
+    """non-presence container inside non-presence container (2-3 levels) with a mandatory leaf / min-elements list / min-elements
+    leaf-list / mandatory choice at the bottom, below a presence container, below a list entry and in a case: the mandatory
+    descendant is demanded through the containers exactly when the presence container / entry / case data exists"""
+    b = _Fam(rng)
+
+    def bottom(mand=True):
+        k = rng.choice(["leaf", "leaf", "list", "leaflist", "choice"]) if mand else "none"
+        if k == "leaf":
+            return b.mixed([b.leaf(mand=True), b.leaf()])
+        if k == "list":
+            return b.mixed([b.lst([b.leaf()], lo=rng.choice([1, 2]), hi=rng.choice([0, 3])), b.leaf(dflt=rng.random() < 0.5)])
+        if k == "leaflist":
+            return b.mixed([b.ll(lo=rng.choice([1, 2]), hi=rng.choice([0, 3])), b.leaf()])
+        if k == "choice":
+            return [b.choice([b.case([b.leaf()]), b.case([b.leaf()])], mand=True)] + ([b.leaf()] if rng.random() < 0.5 else [])
+        return [b.leaf(dflt=True), b.leaf()]
+
+    def chain(mand=True):
+        n = b.np(bottom(mand))
+        for _ in range(rng.choice([1, 1, 2])):
+            n = b.np(b.mixed([n] + ([b.leaf(dflt=rng.random() < 0.6)] if rng.random() < 0.5 else [])))
+        return n
+    top = [b.pc(b.mixed([b.leaf(), chain()])), b.lst(b.mixed([chain(), b.leaf()]))]
+    if rng.random() < 0.6:
+        # in a (non-default) case: the chain is demanded once the case is selected by its other leaf
+        ch = b.choice(b.mixed([b.case(b.mixed([b.leaf(), chain()])), b.case([b.leaf()])]))
+        top.append(b.pc([ch]) if rng.random() < 0.5 else ch)
+    if rng.random() < 0.5:
+        top.append(chain(mand=rng.random() < 0.4))
+    return b.finish("np-chain-mandatory", idx, b.mixed(top))
+
+
+def fam_minmax_in_case(rng, idx):
+    """list with min-elements and max-elements and leaf-list with min / max inside a case (the other case holds a max-only list /
+    leaf-list, sometimes with defaults and as the default case)"""
+    b = _Fam(rng)
+
+    def body():
+        lo = rng.choice([1, 2, 2])
+        la = b.lst([b.leaf()], lo=lo, hi=rng.choice([lo, lo + 1, 4]))
+        lo2 = rng.choice([0, 1, 2])
+        lla = b.ll(lo=lo2, hi=rng.choice([max(lo2, 1), 3]))
+        ca = b.case(b.mixed([b.leaf(), la, lla]))
+        llb = b.ll(hi=rng.choice([1, 2]), ndflt=rng.choice([0, 1, 2]))
+        cb = b.case(b.mixed([b.leaf(dflt=rng.random() < 0.4), llb] + ([b.lst([b.leaf()], hi=rng.choice([1, 2]))] if rng.random() < 0.5 else [])))
+        return b.choice(b.mixed([ca, cb]), dflt=cb if rng.random() < 0.4 else None)
+    return b.finish("minmax-in-case", idx, b.holders(body))
+
+
+def fam_unique_paths(rng, idx):
+    """`unique` with targets inside a non-presence container, inside a presence container, in two different cases of a choice and
+    directly in the entry, several of them with a default.  The list is at the top level or in a presence container; instances come
+    from the random generator and from directed_unique()."""
+    b = _Fam(rng)
+
+    def tl(dflt=False):
+        return b.leaf(dflt=dflt, noempty=True, room=5)
+    a, a2 = tl(rng.random() < 0.4), tl()
+    pb = tl(rng.random() < 0.6)
+    x, y = tl(rng.random() < 0.5), tl(rng.random() < 0.3)
+    d = tl(True)
+    e = tl()
+    ch = b.choice([b.case([x]), b.case([y, b.leaf()])], dflt=None)
+    if rng.random() < 0.5:
+        ch.dflt = ch.kids[0].name
+    kids = [b.np([a, a2]), b.pc([pb, b.leaf()]), ch, d, e]
+    # every schema of the family: one unique with a target in a container, one with a target in a case, sometimes a third one
+    in_cont = [[a], [pb], [a, a2], [a, d], [pb, e], [y, a]]
+    in_case = [[x], [y], [x, y], [e, x]]
+    uniques = [rng.choice(in_cont), rng.choice(in_case)] + ([rng.choice([[d], [e], [a2, d]])] if rng.random() < 0.4 else [])
+    lst = b.lst(b.mixed(kids), uniques=[list(u) for u in b.mixed(uniques)])
+    top = [lst if rng.random() < 0.6 else b.pc([b.leaf(), lst]), b.leaf()]
+    return b.finish("unique-paths", idx, top)
+
+
+def fam_plain(rng, idx):
+    """the schema language of the first theorem: presence containers, lists, leaf-lists, leaves; mandatory, min/max-elements; no
+    default, no non-presence container, no choice, no unique"""
+    b = _Fam(rng)
+
+    def kids(depth):
+        out = []
+        for _ in range(rng.randrange(2, 5)):
+            r = rng.random()
+            if r < 0.4 or depth >= 3:
+                out.append(b.leaf(mand=rng.random() < 0.3))
+            elif r < 0.6:
+                lo = rng.choice([0, 0, 1, 2])
+                out.append(b.ll(lo=lo, hi=rng.choice([0, 0, max(lo, 1), 3])))
+            elif r < 0.8:
+                out.append(b.pc(kids(depth + 1)))
+            else:
+                lo = rng.choice([0, 0, 1, 2])
+                out.append(b.lst(kids(depth + 1), lo=lo, hi=rng.choice([0, 0, max(lo, 1), 3])))
+        return out
+    top = kids(1)
+    for t in top:
+        if rng.random() < 0.7:
+            t.mandatory = False
+            if t.kind in ("list", "leaflist"):
+                t.min = 0
+    return b.finish("plain", idx, top)
+
+
+class RawSchema:
+    """a module given as YANG text, for requests only the harness sees (schema registration): `dsl()` is just the key the harness files
+    the schema under, no model reads it"""
+
+    def __init__(self, name, yang_text):
+        assert len(name) >= 3
+        self.name, self._yang, self.nodes, self.top = name, yang_text, [], []
+
+    def dsl(self):
+        return ("module %s" % self.name).encode()
+
+    def xdsl(self):
+        return b""
+
+    def yang(self):
+        return self._yang
+
+
+def _cg(name, body):
+    return RawSchema(name, 'module %s {\n  yang-version 1.1;\n  namespace "urn:verif:%s";\n  prefix p;\n  %s\n}\n' % (name, name, body))
+
+
+_CG_B = 'case b { leaf y { type string; } }'
+
+
+def compiler_guarantee_schemas():
+    """The schema hypotheses `FullSane` of the C02 theorems, point by point, as tiny modules lys_compile must REFUSE, and positive controls
+    it must accept: [(what, RawSchema, must_compile)]"""
+    refused = [
+        ("mandatory leaf with a default", "cgr01", 'leaf x { type string; mandatory true; default "a"; }'),
+        ("mandatory choice with a default case", "cgr02", 'choice ch { mandatory true; default a; case a { leaf x { type string; } } %s }' % _CG_B),
+        ("mandatory leaf directly in the default case", "cgr03", 'choice ch { default a; case a { leaf x { type string; mandatory true; } } %s }' % _CG_B),
+        ("list with min-elements 1 directly in the default case", "cgr04",
+         'choice ch { default a; case a { list l { key k; min-elements 1; leaf k { type string; } } } %s }' % _CG_B),
+        ("leaf-list with min-elements 1 directly in the default case", "cgr05",
+         'choice ch { default a; case a { leaf-list ll { type string; min-elements 1; } } %s }' % _CG_B),
+        ("mandatory choice directly in the default case", "cgr06",
+         'choice ch { default a; case a { choice in { mandatory true; leaf p { type string; } leaf q { type string; } } } %s }' % _CG_B),
+        ("non-presence container with a mandatory leaf in the default case", "cgr07",
+         'choice ch { default a; case a { container c { leaf x { type string; mandatory true; } } } %s }' % _CG_B),
+        ("non-presence container holding a mandatory choice in the default case", "cgr08",
+         'choice ch { default a; case a { container c { choice in { mandatory true; leaf p { type string; } leaf q { type string; } } } } %s }' % _CG_B),
+        ("non-presence container holding a list with min-elements 1 in the default case", "cgr09",
+         'choice ch { default a; case a { container c { list l { key k; min-elements 1; leaf k { type string; } } } } %s }' % _CG_B),
+        ("leaf-list with a default and min-elements 1", "cgr10", 'leaf-list ll { type string; min-elements 1; default "a"; }'),
+        ("config true node under a config false container", "cgr11", 'container c { config false; leaf x { type string; config true; } }'),
+        ("min-elements 3 with max-elements 2", "cgr12", 'leaf-list ll { type string; min-elements 3; max-elements 2; }'),
+        ("two cases with the same name in one choice", "cgr13", 'choice ch { case a { leaf x { type string; } } case a { leaf y { type string; } } }'),
+        ("two sibling data nodes with the same name, one of them inside a case", "cgr14",
+         'leaf x { type string; } choice ch { case a { leaf x { type string; } } %s }' % _CG_B),
+    ]
+    controls = [
+        ("non-presence container holding a PRESENCE container with a mandatory leaf in the default case", "cgc01",
+         'choice ch { default a; case a { container c { container q { presence "p"; leaf x { type string; mandatory true; } } } } %s }' % _CG_B),
+        ("leaf-list with 2 defaults and max-elements 2", "cgc02", 'leaf-list ll { type string; max-elements 2; default "a"; default "b"; }'),
+    ]
+    return [(w, _cg(n, b), False) for w, n, b in refused] + [(w, _cg(n, b), True) for w, n, b in controls]
+
+
+def witness_f320():
+    """Witness of finding F320: `container c { presence; leaf-list ll { type string; max-elements 1; default "a"; default "b"; } }`
+    and the instance with just the empty container.  More default values than max-elements: libyang (without fixes/F320.diff)
+    compiles the module, creates both implicit instances and rejects every `c` without explicit entries (NoMax).
+    Returns (schema, forest)."""
+    import random
+    b = _Fam(random.Random(320))
+    ll = b.ll()
+    ll.ty, ll.userord, ll.min, ll.max, ll.dflts = Ty("string"), False, 0, 1, [b"a", b"b"]
+    c = b.pc([ll])
+    s = XSchema("vf320", [c])
+    s.family = "f320-witness"
+    return s, [DN(c)]
+
+
+FAMILY_PREFIX = {"np-nested-default": "fa", "mand-choice-in-case": "fb", "default-case-nested": "fc", "np-chain-mandatory": "fd",
+                 "minmax-in-case": "fe", "unique-paths": "fu", "plain": "fp"}
+FAMILIES = [("np-nested-default", fam_np_nested_default), ("mand-choice-in-case", fam_mand_choice_in_case),
+            ("default-case-nested", fam_default_case_nested), ("np-chain-mandatory", fam_np_chain),
+            ("minmax-in-case", fam_minmax_in_case), ("unique-paths", fam_unique_paths), ("plain", fam_plain)]
+# sub-families switched off because they expose an open disagreement (none at present)
+DISABLED_FAMILIES = set()
+
+
+def schema_constructs(s):
+    """the constructs of the full schema language a schema contains (names as printed in the distribution of C02)"""
+    f = set()
+
+    def mand_through_np(n):
+        """does the non-presence container n carry LYS_MAND_TRUE: a mandatory leaf / choice, min-elements or such a container below"""
+        for k in n.kids:
+            if (k.kind in ("leaf", "choice") and k.mandatory) or (k.kind in ("list", "leaflist") and k.min) or (k.np_cont() and mand_through_np(k)):
+                return True
+        return False
+    for n in s.nodes:
+        pk = n.parent.kind if n.parent is not None else None
+        if not n.config:
+            f.add("state")
+        if n.kind == "choice":
+            f.add("choice")
+            if pk == "case":
+                f.add("nested-choice")
+            if n.mandatory:
+                f.add("mandatory-choice")
+                if pk == "case":
+                    f.add("mandatory-choice-in-case")
+            if n.dflt:
+                f.add("default-case")
+                dc = [c for c in n.kids if c.name == n.dflt][0]
+                if any(k.kind == "choice" for k in dc.kids):
+                    f.add("default-case-with-nested-choice")
+        elif n.kind == "leaf" and n.dflt is not None:
+            f.add("leaf-default")
+        elif n.kind == "leaflist":
+            if n.dflts:
+                f.add("leaflist-default")
+            if pk == "case" and (n.min or n.max):
+                f.add("leaflist-minmax-in-case")
+        elif n.np_cont():
+            f.add("np-container")
+            if pk == "case":
+                f.add("np-container-in-case")
+            if pk == "container" and not n.parent.presence:
+                f.add("np-in-np")
+            if mand_through_np(n):
+                f.add("np-container-mandatory-below")
+        elif n.kind == "list":
+            if pk == "case" and (n.min or n.max):
+                f.add("list-minmax-in-case")
+            for u in getattr(n, "uniques", []):
+                f.add("unique")
+                for leaf in u:
+                    if leaf.dflt is not None:
+                        f.add("unique-target-default")
+                    p = leaf.parent
+                    while p is not n:
+                        f.add("unique-target-in-container" if p.kind == "container" else "unique-target-in-choice")
+                        p = p.parent
+    return f
+
+
+CONSTRUCTS = ["choice", "nested-choice", "mandatory-choice", "mandatory-choice-in-case", "default-case", "default-case-with-nested-choice",
+              "leaf-default", "leaflist-default", "np-container", "np-container-in-case", "np-in-np", "np-container-mandatory-below",
+              "list-minmax-in-case", "leaflist-minmax-in-case", "unique", "unique-target-in-container", "unique-target-in-choice",
+              "unique-target-default", "state"]
+
+
+def theorem_class(s):
+    """the smallest schema class of the C02 theorems (validate_ok_iff_valid, validate_error_tag) the schema belongs to:
+    plain (presence containers, lists, leaf-lists, leaves only) < full-without-unique < full"""
+    f = schema_constructs(s)
+    if "unique" in f:
+        return "full"
+    if f & {"np-container", "choice", "default-case", "leaf-default", "leaflist-default"}:
+        return "full-without-unique"
+    return "plain"
+
+
+def prune_np(forest):
+    """the same instance without its EMPTY non-presence containers (recursively); None when there is none.  After a mutation that
+    removed the last child of such a container, this is the form where only validation's implicit containers lead to the violated
+    constraint."""
+    changed = [False]
+
+    def go(nodes):
+        out = []
+        for n in nodes:
+            m = DN(n.sn, n.val, go(n.kids), n.flags, list(n.meta))
+            if m.sn.np_cont() and not m.kids:
+                changed[0] = True
+                continue
+            out.append(m)
+        return out
+    f = go(forest)
+    return f if changed[0] else None
+
+
+def remove_leaf(inst, lst, leaf):
+    """remove the instance of `leaf` below the list instance (the containers on the way stay); True when there was one"""
+    chain, p = [], leaf
+    while p is not lst:
+        if p.is_data():
+            chain.append(p)
+        p = p.parent
+    node = inst
+    for sn in reversed(chain):
+        nxt = [k for k in node.kids if k.sn is sn]
+        if not nxt:
+            return False
+        if sn is leaf:
+            node.kids.remove(nxt[0])
+            return True
+        node = nxt[0]
+    return False
+
+
+def directed_unique(rng, s, g, ns=(2, 2, 3, 3, 5)):
+    """hand-shaped instances for every list with `unique` that sits at the top level or in a top-level container, with the entry counts
+    `ns`: exactly 2 entries
+    (the direct comparison of lyd_validate_unique), 3 entries and more (its hash tables); one pair of entries at random positions
+    (first/second, first/third, second/third, ...) made equal in one unique statement, left as generated (different), or made
+    equal and then one target without a default in use removed from the later entry (incomplete tuple).
+    -> [(forest, {"shape": ..., "n": ...})]; whether an instance is valid is decided by the specification, not here."""
+    out = []
+    lists = [n for n in s.nodes if n.kind == "list" and getattr(n, "uniques", None)
+             and (n.parent is None or (n.parent.kind == "container" and n.parent.parent is None))]
+    for lst in lists:
+        root = lst if lst.parent is None else lst.parent
+        for n in ns:
+            for shape in ("equal", "different", "incomplete"):
+                seen, ents = set(), []
+                for _ in range(n):
+                    e = g.list_instance(lst, seen)
+                    if e is not None:
+                        ents.append(e)
+                forest = g.gen_level([t for t in s.top if t is not root])
+                if lst.parent is None:
+                    forest += ents
+                else:
+                    forest.append(DN(root, None, g.gen_level([k for k in root.kids if k is not lst]) + ents))
+                tg.canon(forest)
+                g.fix_uniques(None, forest)
+                level = forest if lst.parent is None else [x for x in forest if x.sn is root][0].kids
+                insts = [x for x in level if x.sn is lst]
+                if len(insts) < 2:
+                    continue
+                info = {"shape": shape, "n": len(insts), "sid": lst.sid}
+                if shape != "different":
+                    u = rng.choice(lst.uniques)
+                    i, j = sorted(rng.sample(range(len(insts)), 2))
+                    a, bb = insts[i], insts[j]
+                    for leaf in u:
+                        if find_leaf(a, lst, leaf) is None and (leaf.dflt is None or not default_in_use(a, lst, leaf)):
+                            g.force_leaf(a, lst, leaf)
+                    ta = uniq_tuple(a, lst, u, rfc=True)
+                    if ta is None:
+                        continue
+                    for leaf, v in zip(u, ta):
+                        dn = find_leaf(bb, lst, leaf)
+                        if dn is None:
+                            g.force_leaf(bb, lst, leaf)
+                            dn = find_leaf(bb, lst, leaf)
+                        if dn is not None:
+                            dn.val = v
+                    info["pair"] = [i, j]
+                    if shape == "incomplete":
+                        leaf = rng.choice(u)
+                        remove_leaf(bb, lst, leaf)
+                        info["dropped"] = leaf.sid
+                out.append((forest, info))
+    return out
 
 
 # ----------------------------------------------------------------------------------------------------------------
